@@ -89,7 +89,7 @@ pub fn spawn_program(bus: &mut Bus, prng: &mut Rng, mix: &str, tokens: &Rc<Cell<
         }
     }
 
-    if mix.split(',').any(|m| m == "discovery") && n >= 2 {
+    if (mix == "all" || mix.split(',').any(|m| m == "discovery")) && n >= 2 {
         let done = Slot::new();
         let lifetime_mail = Mailbox::new();
         let ndisc = 1 + prng.below(2);
